@@ -53,7 +53,7 @@ def outcome_seqs(tier):
     return out
 
 def to_outcomes(seq):
-    m = {"E1": ["err", "E1", "boom1"], "E2": ["err", "E2", "boom2"], "T": ["none"], "ok": ["ok", {"done": 1}],
+    m = {"E1": ["err", "E1", "boom1"], "E2": ["err", "E2", "boom2"], "T": ["none"], "ok": ["ok", {"done": 1}], "B": ["okstr", 100000],
          "R": ["err", "States.Runtime", "rt"], "X": ["err", "Task.Terminated", "tt"]}
     return [m[s] for s in seq]
 
@@ -69,7 +69,12 @@ def machine(kind, retry, catch, fname):
     if kind.endswith("-nested"):
         t = dict(t, Retry=inner_retry)
         kind = kind[:-len("-nested")]
-    if kind == "task":
+    if kind == "task-exitquota":
+        # the state fails while *exiting*: its merged output (a 200000-character member of the input plus a 100000-character result
+        # at ResultPath) exceeds the data quota; that error is retriable / catchable like any other and counts against the same budget
+        states["G"] = {"Type": "Pass", "Result": "x" * 200000, "ResultPath": "$.blob", "Next": "T"}
+        states["T"] = dict(t, ResultPath="$.r", Next="N", **hs)
+    elif kind == "task":
         states["T"] = dict(t, Next="N", **hs)
     elif kind == "parallel":
         states["T"] = dict({"Type": "Parallel", "Next": "N", "Branches": [{"StartAt": "TI", "States": {"TI": dict(t, End=True)}},
@@ -93,7 +98,7 @@ def machine(kind, retry, catch, fname):
     states["K"] = dict(follow)
     states["K2"] = {"Type": "Pass", "Parameters": {"k2.$": "$"}, "End": True}
     states["W"] = {"Type": "Pass", "Parameters": {"wrapped.$": "$"}, "End": True}
-    return {"StartAt": "T", "States": states, "TimeoutSeconds": 200}
+    return {"StartAt": "G" if "G" in states else "T", "States": states, "TimeoutSeconds": 200}
 
 def cases(tier):
     out = []
@@ -111,6 +116,13 @@ def cases(tier):
     for r in single:
         for o in os_[::2]:
             out.append(("map-in-mapmc", r, None, o))
+    quota_retriers = [None, [{"ErrorEquals": ["States.DataLimitExceeded"], "IntervalSeconds": 1, "MaxAttempts": 2, "BackoffRate": 2.0}],
+                      [{"ErrorEquals": ["States.ALL"], "IntervalSeconds": 3, "MaxAttempts": 1}],
+                      [{"ErrorEquals": ["E1"], "IntervalSeconds": 1, "MaxAttempts": 1}, {"ErrorEquals": ["States.DataLimitExceeded"], "IntervalSeconds": 2, "MaxAttempts": 2, "BackoffRate": 1.0}]]
+    for r in quota_retriers:
+        for c in (None, [{"ErrorEquals": ["States.DataLimitExceeded"], "Next": "K", "ResultPath": None}]):
+            for o in (["B", "ok"], ["B", "B", "ok"], ["B", "B", "B", "ok"], ["B"], ["E1", "B", "ok"], ["ok"]):
+                out.append(("task-exitquota", r, c, o))
     for kind in ("parallel-nested", "map-nested"):
         for r in single:
             for c in cs[:2]:
